@@ -578,7 +578,7 @@ struct Kern {
                         break;
                 }
                 default: { // one-shot deflate + inflate round trip through the dispatcher (kernels selected per CPU)
-                        size_t l = (sub & 16) ? 20000 + len % 50000 : len % 30000; // far-copy data needs room for copies from 4-32 KiB back
+                        size_t l = (sub & 16) ? 20000 + (len ^ (size_t) (seed >> 7)) % 50000 : len % 30000; // far-copy data needs room for copies from 4-32 KiB back (and the generator's lengths are mostly small: spread them)
                         Slot *s = buf(l, place, "rt_in", r), *zs = g_arena.alloc(sizeof(struct isal_zstream), PLACE_END, "zstream", fill + 8, 16), *o = g_arena.alloc(l + l / 8 + 300, PLACE_END, "rt_comp", fill + 9, 1);
                         Slot *is = g_arena.alloc(sizeof(struct inflate_state), PLACE_END, "inflate_state", fill + 10, 8), *d = g_arena.alloc(l, PLACE_END, "rt_out", fill + 11, 1);
                         int level = sub % 4;
